@@ -203,7 +203,7 @@ Contract(
     loops={0: LoopSpec("for w in self.worlds", _add_inv("worlds")), 1: LoopSpec("for (w, bits) in self.world_bits.items()", _add_inv("bits"))},
     axioms=MASK_AXIOMS,
     properties=["C19"],
-    fuel=8,
+    fuel=5,
     shards=8,
     note="WF is preserved: the caches classify conds + {index: cond}; a present index is refused",
 )
@@ -246,6 +246,6 @@ Contract(
     modifies=["self.conds", "self.masks", "self.world_acc", "self.world_rej"],
     loops={0: LoopSpec("for w in self.worlds", _rm_inv)},
     properties=["C19"],
-    fuel=8,
+    fuel=5,
     note="WF is preserved: the caches classify conds without the removed key; an absent index changes nothing",
 )
